@@ -278,6 +278,12 @@ pub fn build_request(origin: &Name, pre: &[Record], upd: &[Record], signer: &TSi
     m.add_authorities(upd.iter().cloned());
     m.finalize(signer, NOW).ok()?;
     let bytes = m.to_vec().ok()?;
+    // a message that does not fit into 65 535 octets is silently truncated by the encoder (RRs dropped, TC set):
+    // that is the client's problem, not an UPDATE the server ever sees in full — skip it
+    let back = Message::from_vec(&bytes).ok()?;
+    if back.truncation || back.answers.len() != pre.len() || back.authorities.len() != upd.len() {
+        return None;
+    }
     Request::from_bytes(bytes, "127.0.0.1:5300".parse().unwrap(), Protocol::Udp).ok()
 }
 
